@@ -203,7 +203,7 @@ pub fn run_check(tier: Tier) -> i32 {
     let mut run = Run::new("C14", tier, "fault_enumeration");
     let p = Faults;
     run.replays("fault-enumeration", &p);
-    run.generated("fault-enumeration", &p, tier.pick(40_000, 2_000_000));
+    run.generated("fault-enumeration", &p, tier.pick(150_000, 2_000_000));
     run.finish(
         RULE,
         &[
